@@ -145,8 +145,16 @@ def F13():
     return 'fill="red"' not in out or "opacity" not in out
 
 
+def F14():
+    # opacity on the root svg is dropped
+    from picosvg.svg import SVG
+    src = ('<svg xmlns="http://www.w3.org/2000/svg" viewBox="0 0 100 100" opacity="0.5"><path d="M4,4 L40,40 L4,40 z"/>'
+           '<path d="M14,4 L40,40 L4,40 z"/></svg>')
+    return "opacity" not in SVG.fromstring(src).topicosvg().tostring()
+
+
 if __name__ == "__main__":
-    names = sys.argv[1:] or [f"F{i}" for i in range(1, 14)] + ["F9b"]
+    names = sys.argv[1:] or [f"F{i}" for i in range(1, 15)] + ["F9b"]
     for n in names:
         try:
             r = globals()[n]()
